@@ -42,6 +42,7 @@ EXTENDS Naturals, Sequences, FiniteSets, TLC, SequencesExt, FiniteSetsExt, Json
 
 CONSTANTS Fns,          \* subset of {"wrap", "rst", "fixws", "embed"} explored by this configuration
           Alphabet,     \* token names for comment texts
+          MinLen,       \* shortest text / layout that may be committed (0 except for random walks)
           MaxLen,       \* longest token string
           Widths, Indents, Offsets,      \* wrap(text, width, offset=, indent=)
           RstWidths, RstIndents,         \* rst(text, width, indent, nl)
@@ -193,11 +194,9 @@ RstViolated(in, p, o) ==
 \* boolean observations - the AST itself never enters TLA+.
 IsEmptyLine(x) == x.t = "" /\ x.r = 0
 NonBlank(L) == LET S == SelectSeq(L, LAMBDA x : x.t # "") IN [j \in 1..Len(S) |-> [i |-> S[j].i, t |-> S[j].t]]
-\* number of content-free lines in front of the k-th line with content
-RECURSIVE GapsR(_, _, _)
-GapsR(L, j, n) == IF j > Len(L) THEN <<>>
-                  ELSE IF L[j].t = "" THEN GapsR(L, j + 1, n + 1) ELSE <<n>> \o GapsR(L, j + 1, 0)
-GapsOf(L) == GapsR(L, 1, 0)
+\* number of content-free lines in front of the k-th line with content (not recursive: sources have thousands of lines)
+GapsOf(L) == LET idx == SelectSeq([j \in 1..Len(L) |-> j], LAMBDA j : L[j].t # "")
+             IN [k \in 1..Len(idx) |-> idx[k] - (IF k = 1 THEN 0 ELSE idx[k - 1]) - 1]
 FixViolated(src, o) ==
   LET L == o.lines  n == Len(L) IN
        (IF n >= 2 /\ IsEmptyLine(L[n]) /\ (n = 2 \/ ~IsEmptyLine(L[n - 1])) THEN {} ELSE {"final-newline"})
@@ -240,13 +239,16 @@ InputFeature(in) ==
   ELSE IF ia # <<>> /\ ia[1].k \in {"sp"} THEN "leading-blank"
   ELSE IF HasKind(FirstLine(ia), "tab") THEN "tab"
   ELSE "plain"
+\* an exception: on a text without words, on a text whose first line has no words, or elsewhere
+RaiseClass(in, o) == (IF Words(Expand(in)) = <<>> THEN "blank-text-"
+                      ELSE IF Words(FirstLine(Expand(in))) = <<>> THEN "blank-first-line-" ELSE "raise-") \o o.raised
 WrapClass(in, p, o, v) ==
-  IF "raise" \in v THEN (IF Words(Expand(in)) = <<>> THEN "blank-text-" ELSE "raise-") \o o.raised
+  IF "raise" \in v THEN RaiseClass(in, o)
   ELSE IF "words" \in v THEN (IF FirstLineRewrapped(in, p) THEN "first-line-rewrap:" ELSE "words:") \o InputFeature(in)
   ELSE IF "width" \in v THEN "width:" \o InputFeature(in)
   ELSE "empty"
 RstClass(in, p, o, v) ==
-  IF "raise" \in v THEN (IF Words(Expand(in)) = <<>> THEN "blank-text-" ELSE "raise-") \o o.raised
+  IF "raise" \in v THEN RaiseClass(in, o)
   ELSE IF "tail-quote" \in v THEN "tail-quote"
   ELSE IF "words" \in v THEN
          (IF UsesConverter(in) THEN "converter:words:"
@@ -365,14 +367,20 @@ Call(f, in) == /\ stage = "input" /\ fn = f
                /\ inp' = in /\ stage' = "params"
                /\ UNCHANGED <<fn, items, par, out, verdict>>
 IsDoc(d) == d # <<>> /\ ~IsBlank(Head(Expand(d))) /\ ~IsBlank(Last(Expand(d)))   \* Metadata.doc strips; no comment = no docstring text
-ChooseInput == \/ fn \in {"wrap", "rst"} /\ Call(fn, items)
-               \/ fn = "embed" /\ IsDoc(items) /\ Call(fn, items)
-               \/ fn = "fixws" /\ Complete(items) /\ Call(fn, items)
+ChooseInput == /\ Len(items) >= MinLen
+               /\ \/ fn \in {"wrap", "rst"} /\ Call(fn, items)
+                  \/ fn = "embed" /\ IsDoc(items) /\ Call(fn, items)
+                  \/ fn = "fixws" /\ Complete(items) /\ Call(fn, items)
 
-ParamsOf(f) == CASE f = "wrap" -> WrapParams [] f = "rst" -> RstParams [] f = "fixws" -> FixParams [] f = "embed" -> EmbedParams
+\* texts that take the converter path of rst() are run with the template defaults only: the converter is an
+\* external program (here a stand-in that copies its input) and every call costs several process starts
+ConverterParams == {p \in RstParams : p.width = 72 /\ p.indent = 4}
+ParamsOf(f, in) == CASE f = "wrap" -> WrapParams
+                     [] f = "rst" -> IF UsesConverter(in) THEN ConverterParams ELSE RstParams
+                     [] f = "fixws" -> FixParams [] f = "embed" -> EmbedParams
 SetParams(p) == /\ stage = "params" /\ par' = p /\ stage' = "apply"
                 /\ UNCHANGED <<fn, items, inp, out, verdict>>
-ChooseParams == \E p \in ParamsOf(fn) : SetParams(p)
+ChooseParams == \E p \in ParamsOf(fn, inp) : SetParams(p)
 
 \* the post-conditions talk about source LINES; for grammar items that is their abstract line view
 Subject == IF fn = "fixws" /\ items # <<>> THEN SourceLines(items, par.ending) ELSE inp
@@ -402,8 +410,8 @@ Inv_Space == /\ (stage # "input" /\ fn \in {"wrap"} => par = None \/ par.offset 
 NextInputs == AddItem \/ ChooseInput
 EmitInput == stage = "params" =>
   PrintT(<<"CASE", ToJson(IF fn = "fixws" THEN [fn |-> fn, items |-> inp]
-                          ELSE [fn |-> fn, toks |-> inp, text |-> TextOf(Expand(inp))])>>)
+                          ELSE [fn |-> fn, toks |-> inp, text |-> TextOf(Expand(inp)), conv |-> UsesConverter(inp)])>>)
 \* parameter tuples: one case per tuple (INIT InitParams, NEXT ChooseParams)
 InitParams == /\ stage = "params" /\ fn \in Fns /\ items = <<>> /\ inp = <<>> /\ par = None /\ out = None /\ verdict = {}
-EmitParams == stage = "apply" => PrintT(<<"CASE", ToJson([fn |-> fn, par |-> par])>>)
+EmitParams == stage = "apply" => PrintT(<<"CASE", ToJson([fn |-> fn, par |-> par, conv |-> fn = "rst" /\ par \in ConverterParams])>>)
 =============================================================================
